@@ -9,7 +9,7 @@ Import ListNotations.
 
 Definition always_raises (E : denv) (x : pval) : Prop := forall st, exists e, get_state E x st = Raise e.
 
-(* positions the dumper serialises (object arrays are left out: tolist_state visits as many cells as the shape says) *)
+(* positions the dumper serialises (the cells of an object array are left out of this relation) *)
 Inductive inside (x : pval) : pval -> Prop :=
 | in_here : inside x x
 | in_seq q id m c nt items y : In y items -> inside x y -> inside x (PSeq q id m c nt items)
